@@ -251,7 +251,13 @@ pub fn render(n: &J, out: &mut String) -> J {
             out.push(')');
             if let Some(cl) = n.get("cl") {
                 out.push_str(" -> |");
-                let ps: Vec<&str> = seq(&cl["p"]).iter().map(|p| p.as_str().unwrap()).collect();
+                let ps: Vec<&str> = seq(&cl["p"])
+                    .iter()
+                    .map(|p| match p.as_str().unwrap() {
+                        "" => "_", // placeholder parameter: bound to nothing
+                        x => x,
+                    })
+                    .collect();
                 out.push_str(&ps.join(", "));
                 out.push_str("| { ");
                 let body = render_seq(seq(&cl["s"]), "; ", out);
